@@ -3,7 +3,8 @@ Line-protocol driver for the C03 model (composition).  Parsing glue only; every 
 by the definitions of `Core/C03Compose.lean` the theorems of `Props/C03.lean` are about.
 
 table := T n row*            row  := cls nAnc anc* isAlign nInpl cls* nComp cls* strip
-cell  := F d cls e₁…e_{(d+1)²} | C n ref* | L k | D n idx* | B n bit*   (D / B = WithDims with indices / a mask)
+cell  := F d cls e₁…e_{(d+1)²} | C n ref* | L k | D n idx* | B n bit* | I n int* | S a b c
+         (D / B / I / S = WithDims with non-negative indices / a mask / integers of either sign / a slice, `N` = None)
 stmt  := cb a b | ca a b | cbi a b | cai a b | fv a n v₁…v_n       (fv = compose_after_from_vector_inplace)
 
 ops:
@@ -47,6 +48,14 @@ def pTable : P ClassTable := do
   let t ← tok
   if t == "T" then pList pRow else failure
 
+/-- an optional integer: `N` = None -/
+def pOInt : P (Option Int) := do
+  let t ← tok
+  if t == "N" then pure none else
+    match t.toInt? with
+    | some i => pure (some i)
+    | none => failure
+
 def pCell : P Cell := do
   let t ← tok
   match t with
@@ -59,6 +68,12 @@ def pCell : P Cell := do
   | "L" => do let k ← pNat; pure (.leaf (.opq k))
   | "D" => do let ds ← pList pNat; pure (.leaf (.withDims ds))
   | "B" => do let bs ← pList pBool; pure (.leaf (.withMask bs))
+  | "I" => do let ds ← pList pInt; pure (.leaf (.withIdx ds))
+  | "S" => do
+    let a ← pOInt
+    let b ← pOInt
+    let c ← pOInt
+    pure (.leaf (.withSlice a b c))
   | _ => failure
 
 def pStmt : P Stmt := do
@@ -85,6 +100,10 @@ def fmtPlain : Plain → String
   | .opq k => s!"L {k}"
   | .withDims ds => s!"D {ds.length}" ++ String.join (ds.map fun m => s!" {m}")
   | .withMask bs => s!"B {bs.length}" ++ String.join (bs.map fun b => if b then " 1" else " 0")
+  | .withIdx ds => s!"I {ds.length}" ++ String.join (ds.map fun m => s!" {m}")
+  | .withSlice a b c =>
+    let f (o : Option Int) := match o with | none => "N" | some i => s!"{i}"
+    s!"S {f a} {f b} {f c}"
 
 def fmtCell : Cell → String
   | .fam d t => s!"F {d} {t.cls.name} {fmtM t.M}"
